@@ -60,9 +60,32 @@ def _iso_worker(conn, fn_mod, fn_name, items):
     conn.close()
 
 
+def _cpu_seconds(pid):
+    """CPU time (user + system, all threads) consumed so far by process pid; None when it cannot be read"""
+    try:
+        with open(f"/proc/{pid}/stat") as fh:
+            f = fh.read().rsplit(")", 1)[1].split()
+        return (int(f[11]) + int(f[12])) / os.sysconf("SC_CLK_TCK")
+    except Exception:  # noqa: BLE001
+        return None
+
+
+def _expired(pid, t_start, cpu_start, timeout):
+    import time
+    wall = time.time() - t_start
+    if wall <= timeout:
+        return False
+    now = _cpu_seconds(pid)
+    if now is None or cpu_start is None:
+        return wall > timeout
+    return now - cpu_start > timeout or wall > 20 * timeout
+
+
 def map_isolated(fn_mod, fn_name, items, key, nproc=None, chunk=10, timeout=180):
     """Like map_grouped, but every item's fate is known: result | ("died", item) | ("timeout", item).
 
+    `timeout` is in CPU seconds of the worker on the current item (a busy non-terminating loop burns CPU; a loaded
+    machine does not turn a slow run into a hang), with a wall-clock backstop of 20 x timeout for a blocked worker.
     Returns dict idx -> ("ok", value) | ("err", msg) | ("died", None) | ("timeout", None)."""
     import time
     nproc = nproc or NPROC
@@ -84,16 +107,17 @@ def map_isolated(fn_mod, fn_name, items, key, nproc=None, chunk=10, timeout=180)
             p = ctx.Process(target=_iso_worker, args=(cc, fn_mod, fn_name, its))
             p.start()
             cc.close()
-            running.append([p, pc, list(its), None, time.time()])
+            running.append([p, pc, list(its), None, time.time(), None])
         time.sleep(0.05)
         for r in list(running):
-            p, conn, rem, cur, t0 = r
+            p, conn = r[0], r[1]
             finished = False
             try:
                 while conn.poll():
                     st, idx, val = conn.recv()
                     if st == "start":
                         r[3], r[4] = idx, time.time()
+                        r[5] = _cpu_seconds(p.pid)
                     elif st in ("ok", "err"):
                         out[idx] = (st, val)
                         r[2] = [x for x in r[2] if x[0] != idx]
@@ -114,7 +138,7 @@ def map_isolated(fn_mod, fn_name, items, key, nproc=None, chunk=10, timeout=180)
                         queue.insert(0, rest)
                 running.remove(r)
                 conn.close()
-            elif r[3] is not None and time.time() - r[4] > timeout:
+            elif r[3] is not None and _expired(p.pid, r[4], r[5], timeout):
                 p.kill()
                 p.join(timeout=2)
                 out[r[3]] = ("timeout", None)
